@@ -1109,7 +1109,7 @@ class Field(
                         ):
                             c_start = shape1 * i
                             c_end = c_start + shape1
-                            last = sum(n > 0 for n in count[c_start:c_end])
+                            last = _n_profiles(count[c_start:c_end])
 
                             end = start + last
                             compressed_data[start:end] = d[:last]
@@ -1150,7 +1150,7 @@ class Field(
                         ):
                             c_start = shape1 * i
                             c_end = c_start + shape1
-                            last = sum(n > 0 for n in count[c_start:c_end])
+                            last = _n_profiles(count[c_start:c_end])
 
                             end = start + last
                             compressed_data[start:end] = d[:last]
@@ -1201,6 +1201,31 @@ class Field(
                 count.append(last)
 
             return count
+
+        def _n_profiles(count):
+            """The number of profiles of one instance.
+
+            This is the position of the last profile that has at
+            least one element, so that an empty profile which is
+            followed by a non-empty one is kept, with a count of zero,
+            and every later profile stays in its place.
+
+            :Parameters:
+
+                count: sequence of `int`
+                    The number of elements in each profile of the
+                    instance.
+
+            :Returns:
+
+                `int`
+
+            """
+            n = len(count)
+            while n and not count[n - 1]:
+                n -= 1
+
+            return n
 
         f = _inplace_enabled_define_and_cleanup(self)
 
@@ -1289,9 +1314,11 @@ class Field(
             # --------------------------------------------------------
             # Ragged contiguous
             # --------------------------------------------------------
+            # Keep the zero counts: an instance with no elements
+            # still occupies its row of the uncompressed array.
             count_variable = self._Count(
                 properties=count_properties,
-                data=self._Data([n for n in count if n]),
+                data=self._Data(np.array(count, dtype=int)),
             )
 
             x = _RaggedContiguousArray(
@@ -1347,19 +1374,27 @@ class Field(
             # --------------------------------------------------------
             # Ragged indexed contiguous
             # --------------------------------------------------------
+            # Each instance keeps its profiles up to the last
+            # non-empty one, including any empty profiles in between
+            # (with zero counts), so that every profile stays in its
+            # place.
             index = []
+            profile_count = []
             shape1 = f.data.shape[1]
             for i in range(f.data.shape[0]):
                 start = shape1 * i
                 end = start + shape1
-                index.extend([i] * sum(n > 0 for n in count[start:end]))
+                n_profiles = _n_profiles(count[start:end])
+                index.extend([i] * n_profiles)
+                profile_count.extend(count[start : start + n_profiles])
 
             count_variable = self._Count(
                 properties=count_properties,
-                data=self._Data([n for n in count if n]),
+                data=self._Data(np.array(profile_count, dtype=int)),
             )
             index_variable = self._Index(
-                properties=index_properties, data=self._Data(index)
+                properties=index_properties,
+                data=self._Data(np.array(index, dtype=int)),
             )
 
             x = _RaggedIndexedContiguousArray(
